@@ -51,6 +51,15 @@ const SECS: [f64; 6] = [0.0, 0.1, 1.0, -1.0, 1.0e9, 0.3];
 const HZ: [f64; 6] = [0.0, 1.0e-9, 50.0, 1.0e5, -3.0, 20000.0];
 const UNIT: [f64; 6] = [0.0, 0.5, 1.0, -1.0, 2.0, 1.0e9];
 
+/// delays of start times: the five durations above and the longest duration there is ("practically never")
+fn delay_of(i: usize) -> Duration {
+	if i % 6 == 5 {
+		Duration::MAX
+	} else {
+		Duration::from_nanos(DURS_NS[i % 6])
+	}
+}
+
 fn tw(i: usize) -> Tween {
 	Tween { start_time: StartTime::Immediate, duration: Duration::from_nanos(DURS_NS[i % 5]), easing: Easing::Linear }
 }
@@ -168,10 +177,11 @@ fn do_step(s: &mut Sess, step: &Value) -> Option<Value> {
 			if let Some(r) = loop_of(p(step, 2) % 6) {
 				st = st.loop_region(r);
 			}
-			st = match p(step, 7) % 4 {
+			st = match p(step, 7) % 5 {
 				0 => st,
 				1 => st.start_time(StartTime::Delayed(Duration::ZERO)),
 				2 => st.start_time(StartTime::Delayed(Duration::from_nanos(1))),
+				4 => st.start_time(StartTime::Delayed(Duration::MAX)),
 				_ => match s.o.clocks.last() {
 					Some(c) => st.start_time(StartTime::ClockTime(ClockTime { clock: c.id(), ticks: 1, fraction: 0.5 })),
 					None => st,
@@ -213,8 +223,10 @@ fn do_step(s: &mut Sess, step: &Value) -> Option<Value> {
 				Some(sd) if p(step, 4) % 2 == 1 => b.with_send(sd, Decibels(DBS[p(step, 5) % 6])),
 				_ => b,
 			};
-			let r = match s.o.tracks.last_mut() {
-				Some(t) if p(step, 6) % 2 == 1 => t.add_sub_track(b),
+			// under the manager, under the newest track, or under the newest spatial track
+			let r = match (p(step, 6) % 3, s.o.tracks.last_mut(), s.o.spatial.last_mut()) {
+				(1, Some(t), _) => t.add_sub_track(b),
+				(2, _, Some(t)) => t.add_sub_track(b),
 				_ => s.sim.manager.add_sub_track(b),
 			};
 			if let Ok(h) = r {
@@ -307,7 +319,7 @@ fn do_step(s: &mut Sess, step: &Value) -> Option<Value> {
 					6 => h.set_volume(Decibels(DBS[l % 6]), tw(d)),
 					7 => h.set_playback_rate(PlaybackRate(PRATES[l % 8]), tw(d)),
 					8 => h.set_panning(Panning(PANS[l % 5]), tw(d)),
-					_ => h.resume_at(StartTime::Delayed(Duration::from_nanos(DURS_NS[l % 5])), tw(d)),
+					_ => h.resume_at(StartTime::Delayed(delay_of(l)), tw(d)),
 				}
 			}
 		}
@@ -337,7 +349,7 @@ fn do_step(s: &mut Sess, step: &Value) -> Option<Value> {
 					0 => h.pause(tw(d)),
 					1 => h.resume(tw(d)),
 					2 => h.set_volume(Decibels(DBS[l % 6]), tw(d)),
-					3 => h.resume_at(StartTime::Delayed(Duration::from_nanos(DURS_NS[l % 5])), tw(d)),
+					3 => h.resume_at(StartTime::Delayed(delay_of(l)), tw(d)),
 					_ => {
 						if let Some(sd) = s.o.sends.last() {
 							let _ = h.set_send(sd, Decibels(DBS[l % 6]), tw(d));
